@@ -2,6 +2,7 @@
    a frame whose PHYSICAL state (column data, row index) was dumped through the hook, with the dumped result.
    Every check has two independent parts: the property oracle at table level (code 2) and the exact
    comparison with the L0 model (code 1). *)
+From QF Require Model.StringRender.
 From QF Require Import Base.Prelude Base.CaseLib Model.Frame Model.Filter Model.FilterSpec Model.Ops Model.TableSpec Model.Eval.
 Local Open Scope N_scope.
 
@@ -62,7 +63,8 @@ Inductive frame_case :=
 | FEquals (f g : frame) (obs : bool)
 | FNew (data : list (bytes * newdata)) (order : list bytes) (enums : list (bytes * list bytes)) (out : frame)
 | FEval (input : frame) (ut : upper_table) (cx : ctx) (dst : bytes) (call : earg) (out : frame)
-| FAggregate (input : frame) (keycols : list bytes) (groups : list (list nat)) (aggs : list agg_spec) (out : frame).
+| FAggregate (input : frame) (keycols : list bytes) (groups : list (list nat)) (aggs : list agg_spec) (out : frame)
+| FString (ftbl : list (N * bytes)) (input : frame) (out : bytes).
 
 Definition first_nonzero (a b : N) : N := if a =? 0 then b else a.
 
@@ -513,4 +515,7 @@ Definition check_frame_case (c : frame_case) : N :=
   | FEval f ut cx dst call out =>
       let e := new_expr call in
       first_nonzero (eval_oracle f cx dst e out) (model_code (eval ut cx f dst e) out)
+  | FString ftbl f out =>
+      (* String(): code 2 = the text is not the rendering of the logical table, 1 = the model's text differs *)
+      QF.Model.StringRender.check_string ftbl f out
   end.
